@@ -20,12 +20,15 @@ Step(ev) == /\ nops < MaxOps /\ nops' = nops + 1
 
 NWrite(o, n) == /\ Len(msg[o]) + n <= 400
                 /\ Write(o, Chunk(o, n))
-                /\ Step([op |-> "write", o |-> o, data |-> Hx!FromBytes(Chunk(o, n))])
+                /\ Step([op |-> "write", o |-> o, data |-> Hx!FromBytes(Chunk(o, n)),
+                         exp |-> Hx!FromBytes(H!Finish(cv'[o], SubSeq(msg'[o], Whole(Len(msg'[o])) + 1, Len(msg'[o])), Len(msg'[o])))])   \* digest after the write: every transition is observed
 NSum(o)      == /\ Sum(o, <<171>>)
                 /\ Step([op |-> "sum", o |-> o, prefix |-> "ab", exp |-> Hx!FromBytes(reply')])
-NReset(o)    == /\ msg[o] # <<>> /\ Reset(o) /\ Step([op |-> "reset", o |-> o])
+NReset(o)    == /\ msg[o] # <<>> /\ Reset(o) /\ Step([op |-> "reset", o |-> o, exp |-> Hx!FromBytes(H!Hash(<<>>))])
 NMarshal(o)  == /\ Marshal(o) /\ Step([op |-> "marshal", o |-> o])
-NUnmarshal(o) == /\ Unmarshal(o) /\ Step([op |-> "unmarshal", o |-> o])
+NUnmarshal(o) == /\ Unmarshal(o)
+                 /\ Step([op |-> "unmarshal", o |-> o,
+                          exp |-> Hx!FromBytes(H!Finish(snap[2], SubSeq(snap[1], Whole(Len(snap[1])) + 1, Len(snap[1])), Len(snap[1])))])
 (* the package-level one-shot function: no object state involved *)
 NOneShot(n)  == /\ nops = 0
                 /\ LET d == R!Bytes(Seed, 31, n) IN
